@@ -10,8 +10,6 @@ C15: the side conditions of the property, written from the property statement (n
               entries in the order of the serialised keys (the canonical representative of a `HashMap`/`BTreeMap`:
               equality of maps does not see the order, the term map iterates in key order);
 * `distinguishable v ty := ty.wf && v.plain` is the property's "shapes the format can distinguish";
-* `wireSafe`  — the extra guard under which the *current* code also round-trips through bytes
-              (no `char`; integers of a type other than `u64` within the i32 range) — see notes/C15.md, findings;
 * `wireFits`  — resource limits of the decoder and well-formed names (atoms are valid UTF-8 of at most 65535 bytes).
 -/
 namespace Edp.Spec.Serde
@@ -104,30 +102,44 @@ def Val.plainW (v : Val) : Bool := plainWith wireT v
 
 def distinguishable (v : Val) (ty : Ty) : Bool := Ty.wf ty && Val.plain v
 
+/-- the same, with the canonical order of map entries also taken on the wire form of the keys (an integer key outside
+the i32 range travels as a big integer); nothing else is excluded -/
+def distinguishableW (v : Val) (ty : Ty) : Bool := distinguishable v ty && Val.plainW v
+
+/-- a map key whose serialised form is the same term before and after the wire (strings, bytes, bool, unit structs,
+integers within the i32 range, `u64` above `i64::MAX`) -/
+def stableKey : Val → Bool
+  | .string _ => true
+  | .bytes _ => true
+  | .bool _ => true
+  | .unit => true
+  | .unitStruct _ => true
+  | .int k i => inI32 i || (decide (k = .u64) && decide (i > i64Max))
+  | _ => false
+
 mutual
-/-- the guard under which the current code round-trips through bytes -/
-def wireSafe : Val → Bool
-  | .int k i => decide (k = .u64) || inI32 i
-  | .char _ => false
-  | .some v => wireSafe v
-  | .tuple vs => wireSafeL vs
-  | .seq vs => wireSafeL vs
-  | .map kvs => wireSafeKV kvs
-  | .struct _ fs => wireSafeF fs
-  | .newtype _ v => wireSafe v
-  | .tupleStruct _ vs => wireSafeL vs
-  | .exStruct _ fs => wireSafeF fs
-  | .variant _ _ p => wireSafe p
+/-- every map inside the value has only `stableKey` keys: then the canonical order of its entries is the same in memory
+and after the wire, and `Val.plainW` follows from `Val.plain` -/
+def keysStable : Val → Bool
+  | .some v => keysStable v
+  | .tuple vs => keysStableL vs
+  | .seq vs => keysStableL vs
+  | .map kvs => keysStableKV kvs
+  | .struct _ fs => keysStableF fs
+  | .newtype _ v => keysStable v
+  | .tupleStruct _ vs => keysStableL vs
+  | .exStruct _ fs => keysStableF fs
+  | .variant _ _ p => keysStable p
   | _ => true
-def wireSafeL : List Val → Bool
+def keysStableL : List Val → Bool
   | [] => true
-  | v :: vs => wireSafe v && wireSafeL vs
-def wireSafeKV : List (Val × Val) → Bool
+  | v :: vs => keysStable v && keysStableL vs
+def keysStableKV : List (Val × Val) → Bool
   | [] => true
-  | (k, v) :: r => wireSafe k && wireSafe v && wireSafeKV r
-def wireSafeF : List (Bytes × Val) → Bool
+  | (k, v) :: r => stableKey k && keysStable v && keysStableKV r
+def keysStableF : List (Bytes × Val) → Bool
   | [] => true
-  | (_, v) :: r => wireSafe v && wireSafeF r
+  | (_, v) :: r => keysStable v && keysStableF r
 end
 
 mutual
